@@ -317,6 +317,24 @@ func runC03(t *testing.T, e *worlds.Env, tier string) (bool, any) {
 			if e.S.CappedBy == "time" && faulty && allDone && len(left) > 0 {
 				fail("handler-stuck", "fault configuration: both peers are gone but the handler has not returned; goroutines alive: %v", left)
 			}
+			// a client that is gone (reset) has finished sending: every upstream must observe
+			// end-of-stream or be closed, and the handler must return
+			if e.S.CappedBy == "time" && model.Aborted && cl.Finished() && len(left) > 0 {
+				waiting, blockedWriting := 0, false
+				for _, r := range recs {
+					if !r.Done && r.Script.StallBeforeRead == 0 {
+						waiting++
+						if r.InWrite {
+							blockedWriting = true
+						}
+					}
+				}
+				if waiting > 0 {
+					// the signature names the history: whether flow control was involved
+					sig = fmt.Sprintf("client-reset finite-window=%v upstream-blocked-in-write=%v", e.N.Cfg.Window > 0, blockedWriting)
+					fail("upstream-not-released", "the client reset its connection at offset %d, but %d upstream(s) never observed end-of-stream and the handler never returned (goroutines alive: %v)", cl.Wrote, waiting, left)
+				}
+			}
 			return
 		}
 		// the run completed: censuses
